@@ -646,6 +646,19 @@ func (cl *c20Client) one(kind string) {
 	}
 }
 
+// c20Retry repeats a sequential set-up call while it fails with NBS's 100 ms manifest-lock timeout (a background
+// conjoin or the other handle can hold the lock on a loaded machine). Set-up calls are not part of any history.
+func c20Retry(fn func() error) error {
+	var err error
+	for i := 0; i < 200; i++ {
+		if err = fn(); err == nil || !strings.Contains(err.Error(), "lock timeout exceeded") {
+			return err
+		}
+		time.Sleep(5 * time.Millisecond)
+	}
+	return err
+}
+
 // c20Mixes are the operation mixes (weights) a history draws its operations from.
 var c20Mixes = map[string][][2]any{
 	"all":     {{"commit", 22}, {"ff", 12}, {"sethead", 8}, {"tag", 6}, {"delete", 8}, {"updws", 12}, {"commitws", 16}, {"read", 10}, {"readall", 6}},
@@ -709,13 +722,18 @@ func c20RunHistory(c *rig.Ctx, e *c20Env, label string, idx int, mix string, obs
 	for i := 0; i < h.nb; i++ {
 		if r.Intn(100) < 85 {
 			tgt := setup.pickTarget("", false)
-			_, err := db.SetHead(bg, datas.NewHeadlessDataset(db, h.names[h.branch(i)]), tokAddr(tgt), "")
+			err := c20Retry(func() error {
+				_, err := db.SetHead(bg, datas.NewHeadlessDataset(db, h.names[h.branch(i)]), tokAddr(tgt), "")
+				return err
+			})
 			rig.Must(err)
 			if r.Intn(100) < 70 {
 				spec, _, err := setup.wsSpec(tgt, r.Intn(3))
 				rig.Must(err)
-				_, err = db.UpdateWorkingSet(bg, datas.NewHeadlessDataset(db, h.names[h.wsOf(i)]), spec, hash.Hash{})
-				rig.Must(err)
+				rig.Must(c20Retry(func() error {
+					_, err := db.UpdateWorkingSet(bg, datas.NewHeadlessDataset(db, h.names[h.wsOf(i)]), spec, hash.Hash{})
+					return err
+				}))
 			}
 		}
 	}
